@@ -148,6 +148,12 @@ def run(tier, seed, replay=None):
         for lst in (["sshd"], ["nomatch", "sshd", ""], ["zz"]):
             cut = chain.index("")
             hs.append(dict(chain=chain, self="zz", list=lst, unread=0, drop=any(x in set(lst) - {""} for x in chain[:cut])))
+    # long lists of distinct names with the match at a late position (32nd, 33rd, 40th, 50th name), and without any match
+    for n in (31, 32, 33, 34, 40, 50):
+        filler = ["n%02d" % i for i in range(n - 1)]
+        hs.append(dict(chain=["zz", "sshd"], self="zz", list=filler + ["sshd"], unread=0, drop=True))
+        hs.append(dict(chain=["sshd"], self="zz", list=filler[: n // 2] + ["", ""] + filler[n // 2:] + ["sshd"], unread=0, drop=True))
+        hs.append(dict(chain=["zz", "cron"], self="zz", list=filler + ["sshd"], unread=0, drop=False))
     cases, meta = [], {}
     for i, h in enumerate(hs):
         lab = "s%d" % i
